@@ -30,6 +30,7 @@ struct TFile {
   std::string raw_override;  // replaces text when set (malformed content for C13/C20, decoys for C06)
   int uid = -1, gid = -1;    // -1: leave as created
   std::string where;         // "<layer>/<rel path>" label used in value tags
+  mutable std::string link_target;  // set by materialise for F_LINK_REGULAR
 };
 
 struct TDir {
@@ -421,6 +422,7 @@ inline void put_file(const std::string &root, const std::string &relpath, const 
       mkdir_p(root + "/targets");
       std::string tgt = root + "/targets/t" + std::to_string(link_no++);
       write_file(tgt, body);
+      f.link_target = tgt;
       if (symlink(tgt.c_str(), path.c_str()) != 0) perror("symlink");
       if (f.uid >= 0 || f.gid >= 0)
         if (chown(tgt.c_str(), f.uid >= 0 ? (uid_t)f.uid : (uid_t)-1, f.gid >= 0 ? (gid_t)f.gid : (gid_t)-1) != 0) perror("chown");
